@@ -148,7 +148,69 @@ theorem tick_resolves_expired (fuel : Nat) (s : St) (now : Int) (hfr : s.frozen 
   have := settle_resolves fuel s now hfr hfuel l hl hp
   simpa [he] using this
 
+/-- **A restore whose storage reads may fail never leaves the node active with a stored lease untracked.**  For every
+set of failing lease reads, every list of collected leases and every memory before: if the restore completes
+(`restoreF … = some s'`; otherwise `errorFunc` shuts the core down / seals the namespace again) then it is the
+fault-free restore, no collected lease's read failed, and every collected lease is tracked in `s'`. -/
+theorem restore_completes_only_with_every_lease_tracked (fail : Nat → Bool) (ls : List Lease) (s s' : St)
+    (h : restoreF fail ls s = some s') :
+    s' = restore ls s ∧ (∀ l ∈ ls, fail l.id = false) ∧
+    ∀ l ∈ ls, (l.id ∈ s'.pending ∨ l.id ∈ s'.irrevocable ∨ l.id ∈ s'.nonexpiring) := by
+  obtain ⟨h1, h2⟩ := (restoreF_some fail ls s s').mp h
+  refine ⟨h1, h2, fun l hl => ?_⟩
+  have := (tracked_restore ls s l.id).mpr (Or.inr ⟨l, hl, rfl⟩)
+  rw [h1]; exact this
+
+/-- A leadership-change restart during which the read of a stored, reachable lease's entry fails inside the restore
+ends in `errorFunc` (shutdown) — for every state, every such lease. -/
+theorem restart_fault_shuts_down (s : St) (now : Int) (l : Lease) (hl : l ∈ s.stored)
+    (hs : s.sealed.contains l.ns = false) : (restartFault s l.id now).2 = .err "shutdown" := by
+  unfold restartFault
+  simp only
+  have : restoreF (fun x => x == l.id) (List.filter (fun l' => !s.sealed.contains l'.ns) s.stored)
+      { s with pending := [], irrevocable := [], nonexpiring := [], frozen := false, marks := [], restoreMode := 0,
+               held := [] } = none := by
+    cases hr : restoreF (fun x => x == l.id) (List.filter (fun l' => !s.sealed.contains l'.ns) s.stored)
+      { s with pending := [], irrevocable := [], nonexpiring := [], frozen := false, marks := [], restoreMode := 0,
+               held := [] } with
+    | none => rfl
+    | some s' =>
+      have := ((restoreF_some _ _ _ _).mp hr).2 l (List.mem_filter.mpr ⟨hl, by rw [hs]; rfl⟩)
+      simp at this
+  rw [this]; rfl
+
+/-- The same for a namespace unseal: the unseal fails and the state is what it was (the namespace sealed, nothing of
+it tracked) whenever the failing read is that of a lease stored in the namespace. -/
+theorem unseal_fault_fails_and_stays_sealed (s : St) (ns : Nat) (now : Int) (l : Lease) (hl : l ∈ s.stored)
+    (hns : l.ns = ns) (hsealed : s.sealed.contains ns = true) :
+    unsealNsFault s ns l.id now = (s, .err "unseal") := by
+  unfold unsealNsFault
+  simp only [hsealed, Bool.not_true, Bool.false_eq_true, ↓reduceIte]
+  cases hr : restoreF (fun x => x == l.id) (nsLeases s ns) s with
+  | none => rfl
+  | some s' =>
+    have := ((restoreF_some _ _ _ _).mp hr).2 l ((mem_nsLeases s ns l).mpr ⟨hl, hns⟩)
+    simp at this
+
+/-- The variant that logs and skips an unreadable entry (NOT the code; the seeded change C05-3) completes and leaves a
+stored lease without any tracking: the property needs the restore to fail as a whole. -/
+theorem restore_skip_cex :
+    ∃ (ls : List Lease) (s : St) (fail : Nat → Bool) (l : Lease), l ∈ ls ∧
+      ¬ (l.id ∈ (restoreSkip fail ls s).pending ∨ l.id ∈ (restoreSkip fail ls s).irrevocable ∨
+         l.id ∈ (restoreSkip fail ls s).nonexpiring) := by
+  refine ⟨[{ id := 1, isAuth := false, owner := 0, issue := 0, expiry := some 3600, bttl := 3600, bmax := 0, emax := 0,
+             renewable := true, irrevocable := false, rootNonExp := false, ns := 0 }], St.init, (· == 1), _,
+          List.mem_singleton.mpr rfl, ?_⟩
+  decide
+
 /-! ### non-vacuity -/
+
+/-- a faulted restart of a state with two stored leases: shutdown, and after the operator's restart both are tracked -/
+example :
+    let s := run St.init [.tokCreate 14400 0 true 0, .reg 0 3600 7200 true 1]
+    (restartFault s 1 2).2 = .err "shutdown" ∧ (restartFault s 1 2).1.pending = [0, 1] ∧
+    (restartFault s 7 2).2 = .ok := by
+  decide
 
 /-- the history of the seeded defect: a lease of namespace 2 is renewed while namespace 1's restore is in flight (its
 mark outlives that restore), then namespace 2 is sealed and unsealed — the lease is tracked again; and the mark is
